@@ -186,6 +186,11 @@ impl CommandAnalyzer {
             }
         }
 
+        // The bindings declare a command name once: of two definitions under one name (a
+        // #[cfg(desktop)] / #[cfg(mobile)] pair) the first one found stands for both
+        let mut names = HashSet::new();
+        commands.retain(|command| names.insert(command.name.clone()));
+
         Ok(commands)
     }
 
